@@ -8,7 +8,7 @@
    model the witnesses meet the statement; no general proof of it exists (it needs the inversion of the tokenizer on the
    formatter's output).  Proved: *)
 Require Import Bebop.front.Tok Bebop.front.Parse Bebop.front.Fmt Bebop.front.FmtFacts Bebop.front.FmtSafe.
-Require Import Bebop.front.LexInv Bebop.front.ParseInv Bebop.front.FmtInv Bebop.front.MsgInv Bebop.front.GenInv Bebop.front.Items Bebop.front.TyInv Bebop.front.TyMsg Bebop.front.TyItems Bebop.front.Schema.
+Require Import Bebop.front.LexInv Bebop.front.ParseInv Bebop.front.FmtInv Bebop.front.MsgInv Bebop.front.GenInv Bebop.front.Items Bebop.front.TyInv Bebop.front.TyMsg Bebop.front.TyItems Bebop.front.TyUnion Bebop.front.TyUnionItem Bebop.front.Schema.
 From Coq Require Import List.
 
 Definition C16_partial_statement : Prop :=
@@ -56,7 +56,7 @@ Qed.
 Print Assumptions C16_records.
 
 (* and with enums and container types, through the item framework (front/GenInv.v, front/Items.v, front/TyItems.v, front/Schema.v):
-   any sequence of struct, readonly struct, message and enum definitions, field types identifiers, array[T], map[K, V] and T[]
+   any sequence of struct, readonly struct, message, enum and union definitions (union branches structs or messages, front/TyUnion.v), field types identifiers, array[T], map[K, V] and T[]
    nested to any depth (front/TyInv.v: format_type on the tokens of a type expression), every layout *)
 Definition C16_schema_statement : Prop :=
   forall dl lay tail,
